@@ -29,7 +29,9 @@ def cases(draw):
     script = draw(st.lists(row, min_size=b * (p + 1), max_size=b * (p + 1)))
     # letters are offset + k*step: with a tiny step distinct points are numerically close (but still different points)
     step, off = draw(st.sampled_from([(1.0, 0.0), (1.0, 0.0), (1e-6, 1.0), (1e-9, 0.0), (0.25, -1.0), (1e-7, 123.0)]))
-    return {"d": d, "history": hist, "batch": b, "passes": p, "script": script, "step": step, "offset": off}
+    # a zero coordinate may be written as -0.0: the same point
+    negz = draw(st.lists(st.integers(0, len(script) + len(hist) - 1), max_size=4)) if off == 0.0 else []
+    return {"d": d, "history": hist, "batch": b, "passes": p, "script": script, "step": step, "offset": off, "negzero": negz}
 
 
 def _model(hist, script, b, p):
@@ -73,6 +75,11 @@ def check_dedup(ctx: Ctx, case):
     step, off = case.get("step", 1.0), case.get("offset", 0.0)
     hist = [tuple(off + float(x) * step for x in r) for r in case["history"]]
     script = [tuple(off + float(x) * step for x in r) for r in case["script"]]
+    for pos in case.get("negzero", []):
+        rows = hist if pos < len(hist) else script
+        i = pos if pos < len(hist) else pos - len(hist)
+        if i < len(rows):
+            rows[i] = tuple(-0.0 if v == 0.0 else v for v in rows[i])
     requested = []
 
     class Scripted(BaseSampler):
@@ -93,7 +100,7 @@ def check_dedup(ctx: Ctx, case):
     sizes, model_out, flagged, first = _model(hist, script, b, p)
     cnt0 = Counter(hist) + Counter(first)
     first_has_repeat = any(cnt0[r] > 1 for r in first)
-    classes = [f"P={p}" if p == 0 else "P>0", f"step={step:g}"]
+    classes = [f"P={p}" if p == 0 else "P>0", f"step={step:g}"] + (["negative-zero"] if case.get("negzero") else [])
     if any(Counter(first)[r] > 1 for r in first):
         classes.append("in-batch-repeat")
     if any(r in set(hist) for r in first):
